@@ -1303,6 +1303,73 @@ def none_error(body):
     return found[0]
 
 
+def fmt_calls(body):
+    """every `write!(DEST, "fmt", args…)` / `writeln!(DEST[, "fmt", args…])` of body in source order, normalised:
+       dest, macro, template (bytes of the format string with every hole written `{}` or `{:spec}`, `{{`/`}}` unescaped to a
+       single brace marker, and the newline of writeln! appended), holes [(argument text, spec)] — an inline `{name}` /
+       `{name:spec}` and a positional `{}` + argument are the same hole — pos, end"""
+    out = []
+    for m in re.finditer(r"\b(writeln|write)!\s*\(", body):
+        o = m.end() - 1
+        c = close_of(body, o)
+        parts = split_top(body[o + 1:c], ",")
+        if not parts:
+            continue
+        dest, fmt, args = parts[0], (parts[1] if len(parts) > 1 else '""'), parts[2:]
+        if not re.fullmatch(r'"(?:\\.|[^"\\])*"', fmt, flags=re.S):
+            continue
+        raw = str_bytes(fmt)
+        tmpl, holes, i, pos_arg = [], [], 0, 0
+        named = {}
+        for a in list(args):
+            mm = re.fullmatch(r"(\w+)\s*=\s*(.*)", a, flags=re.S)
+            if mm:
+                named[mm.group(1)] = mm.group(2)
+                args.remove(a)
+        while i < len(raw):
+            ch = raw[i]
+            if ch == 0x7B and i + 1 < len(raw) and raw[i + 1] == 0x7B:
+                tmpl.append(0x7B)
+                i += 2
+            elif ch == 0x7D and i + 1 < len(raw) and raw[i + 1] == 0x7D:
+                tmpl.append(0x7D)
+                i += 2
+            elif ch == 0x7B:
+                j = raw.index(0x7D, i)
+                inner = bytes(raw[i + 1:j]).decode("latin-1")
+                name, _, spec = inner.partition(":")
+                name = name.strip()
+                if name == "":
+                    arg = args[pos_arg] if pos_arg < len(args) else "?"
+                    pos_arg += 1
+                elif name.isdigit():
+                    arg = args[int(name)] if int(name) < len(args) else "?"
+                else:
+                    arg = named.get(name, name)
+                holes.append((arg.strip(), spec))
+                tmpl += list(("\x00" + (":" + spec if spec else "") + "\x01").encode("latin-1"))
+                i = j + 1
+            else:
+                tmpl.append(ch)
+                i += 1
+        if m.group(1) == "writeln":
+            tmpl.append(10)
+        out.append({"dest": dest.strip(), "macro": m.group(1), "template": bytes(tmpl), "holes": holes, "pos": m.start(), "end": c + 1})
+    return out
+
+
+def fmt_literal(call):
+    """the bytes written by a call without holes"""
+    if call["holes"]:
+        raise ValueError("format string has holes")
+    return list(call["template"])
+
+
+def fmt_split(call):
+    """the literal pieces between the holes of a call: [bytes before hole 1, between 1 and 2, …, after the last]"""
+    return [list(x) for x in re.split(rb"\x00[^\x01]*\x01", call["template"])]
+
+
 def branches(body, var):
     """A decision on `var` against string / byte / integer literals, written as an `if var == "a" {A} else if var == "b" {B} else
     {C}` chain (in any order, `"a" == var` too) or as `match var { "a" => A, "b" => B, _ => C }`: {literal text: block text},
